@@ -18,12 +18,12 @@ PROPS = {
         "judge": True,
         "diff_is_failure": True,
         "trivial_outs": set(),
-        "rule": "cases = n command histories over TCP (ZADD ZREM ZSCORE ZCARD ZRANK ZREVRANK ZRANGE ZREVRANGE ZRANGEBYSCORE ZREVRANGEBYSCORE ZCOUNT ZINCRBY ZPOPMIN ZPOPMAX mixed with DEL/EXPIRE/PERSIST/RENAME/TYPE/EXISTS on colliding key/member/score pools: ties, re-scoring across neighbours, +-0, +-inf, 2^53+-1, 5e-324, 1.79e308, invalid texts; rank indices and counts at 0, +-1, +-len, +-(len+-1), i64/u64 extremes; malformed share: arity, non-bulk arguments, wrong type; 1 in 12 a NaN history), each on a fresh server and ending with a dump (TYPE, ZRANGE 0 -1 WITHSCORES, ZCARD, PTTL of every pool key, KEYS *, DBSIZE) + 2.5 n in-process histories on SkipList<Vec<u8>,f64> (insert/remove/get_score/get_rank/get_by_rank/range_by_rank/range_by_score, full state dump after every mutation - with the sl_hook feature every level's chain, heights, length, level, key_index; one third with NaN scores); one evaluation = one command or skip-list operation compared between the implementation and the extracted Gallina model (score replies as f64 bit patterns); distinct = distinct (operation, output) pairs",
-        "explanation": "theorems: the comparator is a total preorder on all bit patterns; tower search = linear scan for every assignment of heights and update-vector splice = derived chains; the skip-list invariant (strictly sorted by score then member, members unique, no NaN, key_index/length/level agree) is preserved by insert/remove for all non-NaN scores and ALL heights; refinement to a sorted duplicate-free list (latest score wins); rank = position, rank/range agreement; ZRANGE/ZREVRANGE index translation = Redis' rule for all unbounded indices outside the recorded classes, and everywhere for the proposed repair; score ranges/ZCOUNT; ZPOPMIN; every command keeps every stored set well formed and non-empty over all histories; failure atomicity; last member removed => key removed; refuted: NaN stored by ZADD / ZINCRBY, NaN node unremovable, ZRANGE 0 -100, ZREVRANGE 5 10, partial multi-member ZADD, NaN bounds; tie: differential run of the real server (TCP) and of SkipList (in process) against the extracted model + an independent property oracle (reference sorted set with Redis semantics) on the implementation's outputs",
-        "trusted_base": SRV_TB + ["oracle: Rust std f64 <-> decimal text (the harness appends the parse::<f64>() bits of every bulk argument to the operation and compares score replies after re-parsing them to bits); the f64 sum of ZINCRBY is taken from the implementation's reply (Flocq's b64_plus is used only to confirm the inf + -inf sum of the witness, and b64_compare to cross-check the bit-level comparison on a pool: Props/C04F64.v)",
+        "rule": "cases = stored regression cases (corpus/C04: the witnesses of the repaired classes) + n command histories over TCP (ZADD ZREM ZSCORE ZCARD ZRANK ZREVRANK ZRANGE ZREVRANGE ZRANGEBYSCORE ZREVRANGEBYSCORE ZCOUNT ZINCRBY ZPOPMIN ZPOPMAX mixed with DEL/EXPIRE/PERSIST/RENAME/TYPE/EXISTS on colliding key/member/score pools: ties, re-scoring across neighbours, +-0, +-inf, 2^53+-1, 5e-324, 1.79e308, invalid texts; rank indices and counts at 0, +-1, +-len, +-(len+-1), i64/u64 extremes; malformed share: arity, non-bulk arguments, wrong type; 1 in 12 a NaN history: nan scores, inf + -inf), each on a fresh server and ending with a dump (TYPE, ZRANGE 0 -1 WITHSCORES, ZCARD, PTTL of every pool key, KEYS *, DBSIZE) + 2.5 n in-process histories on SkipList<Vec<u8>,f64> (insert/remove/get_score/get_rank/get_by_rank/range_by_rank/range_by_score; after every mutation the full structure through SkipList::verif_dump(): every level's chain, heights, length, level, key_index, the model being given the height drawn; one third with NaN scores); one evaluation = one command or skip-list operation compared between the implementation and the extracted Gallina model (score replies as f64 bit patterns); distinct = distinct (operation, output) pairs",
+        "explanation": "theorems (no input class excluded): the comparator is a total preorder on all bit patterns; tower search = linear scan for every assignment of heights and update-vector splice = derived chains; the skip-list invariant is preserved by insert/remove for all non-NaN scores and ALL heights; refinement to a sorted duplicate-free list (latest score wins); rank = position, rank/range agreement; ZRANGE/ZREVRANGE index translation = Redis' rule for ALL indices; score ranges/ZCOUNT; ZPOPMIN; for every history and EVERY oracle every stored set stays well formed and non-empty, so no NaN is ever stored; NaN scores, increments, sums and bounds are refused; an error reply (a refused multi-member ZADD included) changes nothing; last member removed => key removed in every reachable state; regression examples for the repaired classes; tie: differential run of the real server (TCP) and of SkipList (in process, whole tower structure) against the extracted model + an independent property oracle (reference sorted set with Redis semantics) on the implementation's outputs",
+        "trusted_base": SRV_TB + ["oracle: Rust std f64 <-> decimal text (the harness appends the parse::<f64>() bits of every bulk argument to the operation and compares score replies after re-parsing them to bits); the f64 sum of ZINCRBY is taken from the implementation's reply (none when it answered an error); the theorems hold for every value these oracles may report",
                                   "Props/C04.v does not depend on Flocq; the IEEE cross-checks (inf + -inf = NaN, comparison pool) are in Props/C04F64.v and depend on the four standard-library axioms of the reals"],
-        "assumptions": ["no stored score is NaN (class zset-nan is an open finding; states after a NaN are modelled exactly at the skip-list level only, and generated at the command level only in histories that do not re-score or remove the NaN member)",
-                        "no key expires during a history (only long TTLs are generated): the engine functions of this family do not check expiry (DESIGN F-02b, property C02)"],
+        "assumptions": ["no key expires during a history (only long TTLs are generated): the engine functions of this family do not check expiry (DESIGN F-02b, property C02)",
+                        "histories of sorted-set commands start from the empty database (run_zcmds); other families only create, delete, rename or re-type whole keys"],
     },
     "C03": {
         "n": {"quick": 300, "thorough": 6000},
